@@ -1,6 +1,7 @@
 package harness
 
 import (
+	"context"
 	"fmt"
 	"time"
 
@@ -139,6 +140,13 @@ func runC11(r *Run) {
 		goFlag    bool
 	}
 	ws := make([]*waiter, nW+nBarge)
+	var sharedCtx context.Context
+	if t.Chance(20, "waiters-share-one-context") {
+		var cancelShared context.CancelFunc
+		sharedCtx, cancelShared = context.WithCancel(bg)
+		defer cancelShared()
+		r.Probe("waiters_share_one_context")
+	}
 	noMidOp := func() bool {
 		for _, tk := range s.tasks {
 			if tk.MidOp() {
@@ -162,7 +170,11 @@ func runC11(r *Run) {
 			tk.Begin("acquire", i)
 			w.started = true
 			w.arrived = s.Now()
-			l, ok := st.Lim.Acquire(tk.Ctx)
+			actx := tk.Ctx
+			if sharedCtx != nil {
+				actx = sharedCtx // all waiters were handed the same (live) context: they are still separate waiters
+			}
+			l, ok := st.Lim.Acquire(actx)
 			w.l, w.granted, w.returned, w.retT = l, ok, true, s.Now()
 			tk.End(ok)
 		})
@@ -237,7 +249,7 @@ func runC11(r *Run) {
 				tk.Sleep(a.d)
 			case 2:
 				w := ws[a.w]
-				if !w.cancelled {
+				if !w.cancelled && sharedCtx == nil {
 					w.cancelled = true
 					r.Fault("F-cancel")
 					w.tk.Cancel()
